@@ -40,32 +40,33 @@ type mjJob struct {
 	Task task      `json:"task"`
 }
 
-func joinLeg(file, decl string) string {
+// joinLeg renders one side: a pool, optionally followed by a sort in the leg.
+func joinLeg(ph, decl string) string {
 	switch decl {
-	case "asc":
-		return "file " + file + " order k asc"
-	case "desc":
-		return "file " + file + " order k desc"
 	case "sortasc":
-		return "file " + file + " => sort k"
+		return "pool " + ph + " => sort k"
 	case "sortdesc":
-		return "file " + file + " => sort -r k"
+		return "pool " + ph + " => sort -r k"
 	}
-	return "file " + file
+	return "pool " + ph
 }
 
-func joinFile(keys []string, base int) string {
+func joinSideOf(keys []string, base int, decl string) joinSide {
 	var b strings.Builder
 	for i, k := range keys {
 		fmt.Fprintf(&b, "{k:%s,u:%d}\n", tokLit[k], base+i+1)
 	}
-	return b.String()
+	switch decl {
+	case "asc", "desc":
+		return joinSide{Rows: b.String(), Key: "k", Dir: decl} // pool order on the join key
+	}
+	return joinSide{Rows: b.String(), Key: "u", Dir: "asc"} // rows as written, nothing declared about k
 }
 
 func makeJoinJob(s mjSummary) mjJob {
-	prog := fmt.Sprintf("from ( %s %s ) | %s join on k=k ru:=u", joinLeg("$DIR/L.zson", s.LD), joinLeg("$DIR/R.zson", s.RD), s.Kind)
+	prog := fmt.Sprintf("from ( %s %s ) | %s join on k=k ru:=u", joinLeg("$L", s.LD), joinLeg("$R", s.RD), s.Kind)
 	return mjJob{Sum: s, Task: task{Kind: "join", Prog: prog,
-		Files: map[string]string{"L.zson": joinFile(s.L, 0), "R.zson": joinFile(s.R, 100)}}}
+		Sides: []joinSide{joinSideOf(s.L, 0, s.LD), joinSideOf(s.R, 100, s.RD)}}}
 }
 
 // nestedLoop is the property's oracle: the pairs <<left id or 0, right id or 0>>.
@@ -107,12 +108,12 @@ func realPairs(kind string, rows []string) ([]string, error) {
 		if err != nil {
 			return nil, err
 		}
-		u := v.Deref("u")
-		if u == nil || u.IsNull() {
+		u, ok := fieldOf(v, "u")
+		if !ok || u.IsNull() {
 			return nil, fmt.Errorf("join output row without u: %s", r)
 		}
 		a, b := int(u.Int()), 0
-		if ru := v.Deref("ru"); ru != nil && !ru.IsNull() {
+		if ru, ok := fieldOf(v, "ru"); ok && !ru.IsNull() {
 			b = int(ru.Int())
 		}
 		// ids above 100 belong to the right file
@@ -258,7 +259,7 @@ func judgeJoin(c *core.Ctx, j *mjJob, r result) error {
 			c.Add("runs_matching_spec_exactly", 1)
 		}
 		if j.Task.ID%1499 == 0 {
-			c.Sample(map[string]any{"prog": j.Task.Prog, "L": j.Task.Files["L.zson"], "R": j.Task.Files["R.zson"], "real": rows})
+			c.Sample(map[string]any{"prog": j.Task.Prog, "sides": j.Task.Sides, "real": rows})
 		}
 		return nil
 	}
@@ -278,20 +279,16 @@ func judgeJoin(c *core.Ctx, j *mjJob, r result) error {
 func precheck(c *core.Ctx) error {
 	zctx := newZctx()
 	val := func(t string) zed.Value {
-		lit := tokLit[t]
-		if lit == "" {
-			return zctx.Missing()
-		}
-		v, err := zson.ParseValue(zctx, lit)
+		v, err := zson.ParseValue(zctx, tokLit[t])
 		if err != nil {
 			panic(err)
 		}
 		return v
 	}
 	rec := func(t string) zed.Value {
-		text := "{x:0}"
-		if tokLit[t] != "" {
-			text = "{k:" + tokLit[t] + "}"
+		text := "{k:" + tokLit[t] + "}"
+		if t == "MISS" {
+			text = "{x:0}" // a really absent field must order the same way
 		}
 		v, err := zson.ParseValue(zctx, text)
 		if err != nil {
